@@ -54,7 +54,7 @@ def _run_task(task):
     # none) must end as UNDECIDED (exit 2), not hang the check
     import signal
     quick = os.environ.get('PYVC_TIER', 'quick') == 'quick'
-    budget = float(os.environ.get('PYVC_TASK_BUDGET') or ((300 if task.backend in ('cc-sym', 'gf-lin') else 600) if quick else 7200))
+    budget = float(os.environ.get('PYVC_TASK_BUDGET') or ((900 if task.backend in ('cc-sym', 'gf-lin') else 1800) if quick else 7200))
     if _BUDGET_HITS.value >= 16:
         out['unsupported'] = 'Unsupported: check aborted, 16 tasks exceeded their time budget (exploration does not terminate on this code)'
         return out
@@ -189,8 +189,9 @@ def run_property(prop, contract_module, tier='quick', seed=0, procs=None, extra_
     extract.ensure_repo_on_path()
     mod = importlib.import_module(contract_module)
     os.environ['PYVC_TIER'] = tier
-    # budget of the whole check (all tasks): quick 25 min, thorough 8 h; normal runs take about a minute / a few minutes
-    os.environ['PYVC_DEADLINE'] = repr(t0 + float(os.environ.get('PYVC_CHECK_BUDGET') or (1500 if tier == 'quick' else 28800)))
+    # budget of the whole check (all tasks): quick 90 min, thorough 8 h; normal runs take about a minute / a few minutes (the budgets
+    # are sized for a machine that is several times oversubscribed: an unloaded run must never come near them)
+    os.environ['PYVC_DEADLINE'] = repr(t0 + float(os.environ.get('PYVC_CHECK_BUDGET') or (5400 if tier == 'quick' else 28800)))
     tasks = mod.tasks(tier, seed)
     procs = procs or min(16, max(1, len(tasks)))
     tasks_sorted = sorted(tasks, key=lambda t: -t.weight)
